@@ -63,6 +63,22 @@ impl<T, const N: usize> VerifSeq<T> for [T; N] {
 }
 #[verifier::external_body]
 pub fn verif_elem_arr<T, const N: usize>(v: &[T; N], i: usize) -> (r: T) requires i < N ensures r == v@[i as int] { unimplemented!() }
+// ---- `uint` crate U256 as used for the first-deposit share (ASSUMED model: a natural number below 2^256) ----
+#[verifier::external_body] pub struct U256 { _w: u8 }
+pub uninterp spec fn u256_view(x: U256) -> nat;
+impl View for U256 { type V = nat; open spec fn view(&self) -> nat { u256_view(*self) } }
+impl From<u128> for U256 { #[verifier::external_body] fn from(x: u128) -> (r: U256) ensures r@ == x as nat { unimplemented!() } }
+impl U256 {
+    #[verifier::external_body] pub fn checked_mul(self, o: U256) -> (r: Option<U256>)
+        ensures self@ * o@ < pow256() ==> r is Some && r->Some_0@ == self@ * o@, self@ * o@ >= pow256() ==> r is None { unimplemented!() }
+    /// floor square root
+    #[verifier::external_body] pub fn integer_sqrt(&self) -> (r: U256) ensures r@ * r@ <= self@, self@ < (r@ + 1) * (r@ + 1),
+        self@ < pow256() ==> r@ < POW128 /* consequence of r*r <= self */ { unimplemented!() }
+    /// panics when the value does not fit
+    #[verifier::external_body] pub fn as_u128(&self) -> (r: u128) requires self@ < POW128 ensures r as nat == self@ { unimplemented!() }
+}
+/// D18 target: `std::cmp::min(a, b)` on Uint128
+#[verifier::external_body] pub fn verif_min_u128(a: Uint128, b: Uint128) -> (r: Uint128) ensures r@ == (if a@ <= b@ { a@ } else { b@ }) { unimplemented!() }
 // ---- std collections used as record fields (ASSUMED model: a finite map view) ----
 #[verifier::external_body] #[verifier::accept_recursive_types(K)] #[verifier::accept_recursive_types(V)]
 pub struct BTreeMap<K, V> { _k: core::marker::PhantomData<(K, V)> }
